@@ -29,5 +29,6 @@ for c in "$@"; do
   VERIF_REPO="$WT" ./check "$c" "$TIER" >$T/chk 2>&1; rc=$?
   echo "check $c $TIER: exit=$rc  $(grep -c '^VIOLATION' $T/chk) VIOLATION line(s); $(grep -v '^VIOLATION\|^KNOWN' $T/chk | head -2 | cut -c1-260 | tr '\n' ' ')"
 done
+git -C /verif checkout -q -- evidence   # (the evidence files describe runs on the unchanged tree only)
 cd "$WT" && git checkout -q -- . && git clean -fdq
 rm -rf $T
